@@ -208,6 +208,10 @@ def _exit_is_exact(fn, loop, test, tainted, S):
                 # constant True keeps looping (fine); constant False ends the loop regardless of the count
                 verdicts.append(bool(a.value.value))
                 continue
+            if any(isinstance(h, ast.ExceptHandler) and any(x is a for x in ast.walk(h)) for h in ast.walk(loop)):
+                # in the error handler nothing was sent: any value but True can end the loop normally with bytes remaining
+                verdicts.append(False)
+                continue
             bufs = {d for d in tainted}
             rec, exact = rules.cond_is_emptiness_continue(a.value, bufs)
             if not rec:
@@ -402,6 +406,16 @@ def check_process_send_queue(ctx):
                "each packet is passed to send_data once, in slicing order" if in_order else
                f"send_data({norm(c.args[0]) if c.args else ''}) is not fed from an in-order iteration over the packet list",
                key="order " + norm(c), where=func.where)
+        if in_order and isinstance(floop.iter, ast.Name):
+            # ... and the list is not changed while it is iterated (removing the current element makes the iterator skip the next)
+            lst = floop.iter.id
+            touched = [x for b in floop.body for x in ast.walk(b)
+                       if (isinstance(x, ast.Call) and isinstance(x.func, ast.Attribute) and isinstance(x.func.value, ast.Name) and x.func.value.id == lst
+                           and x.func.attr in ("remove", "pop", "insert", "append", "extend", "clear", "sort", "reverse"))
+                       or (isinstance(x, ast.Subscript) and isinstance(x.ctx, (ast.Store, ast.Del)) and isinstance(x.value, ast.Name) and x.value.id == lst)
+                       or (isinstance(x, ast.Name) and x.id == lst and isinstance(x.ctx, (ast.Store, ast.Del)))]
+            ctx.ob("C10.P3", q, not touched, "the packet list is not changed while it is iterated" if not touched else
+                   f"`{norm(touched[0])[:60]}` changes the packet list inside the loop over it: the iterator skips packets, the block is still resolved as sent", key="order-stable " + norm(c), where=func.where)
         tests = rules.truthiness_tests(cfg, fn, c)
         stmt = next(n for n in cfg.real_nodes() if c in n.calls)
         if not tests:
